@@ -74,11 +74,18 @@ def id_of(rec, assoc):
     return tbl[id(assoc)]
 
 
-def start_server(sched, ae, handlers=(), port=PORT, contexts=None, max_requests=None):
+def start_server(sched, ae, handlers=(), port=PORT, contexts=None, max_requests=None, threaded=False):
     """Create the real AssociationServer (listening SimSocket) and a sim
     thread that accepts connections like serve_forever would (one
-    `_handle_request_noblock` per pending connection)."""
-    server = ae.make_server(("127.0.0.1", port), evt_handlers=list(handlers), contexts=contexts)
+    `_handle_request_noblock` per pending connection).  threaded=True uses the
+    ThreadedAssociationServer of AE.start_server(block=False): one handler
+    thread per connection."""
+    kw = {}
+    if threaded:
+        from pynetdicom.transport import ThreadedAssociationServer
+
+        kw["server_class"] = ThreadedAssociationServer
+    server = ae.make_server(("127.0.0.1", port), evt_handlers=list(handlers), contexts=contexts, **kw)
     state = {"stop": False, "handled": 0}
 
     def loop():
